@@ -125,9 +125,13 @@ def slice_fit(item):
 
 
 class Emitter:
-    def __init__(self, unit_name, contracts):
+    def __init__(self, unit_name, contracts, lits=None):
         self.unit = unit_name
         self.contracts = contracts
+        if lits is None:
+            import gen_types
+            lits = gen_types.Literals()
+        self.lits = lits
         self.sources = {}
         self.records = []   # functions under contract (for the evidence)
         self.rewrites = []  # list of applied rewrites
@@ -171,6 +175,11 @@ class Emitter:
         out_name = name
         attrs = kept_attrs(item)
         body = item.body_text()
+        if body is not None:
+            # R6: amount literals (Amnt!(..) in the sources) become named constants
+            import gen_types
+            whole = gen_types.rewrite_literals(item, self.lits)
+            body = whole[item.toks[item.body_open].start - item.start:]
         prefix = sig.prefix
         ret = sig.ret
         notes = []
@@ -275,6 +284,7 @@ def gen_quantity(subst=F64_SUBST):
              em.render('traits_core.vrs', subst, quantity_defaults=True),
              em.render('rate.vrs', subst),
              em.render('lemmas_quantity_m0.vrs', subst)]
+    parts.insert(1, em.lits.decls())
     text = mark_lemmas(wrap('\n\n'.join(parts)), em.unit)
     return text, em
 
@@ -293,6 +303,7 @@ def gen_hasref(subst=F64_SUBST, extra=()):
              em.render('lemmas_derived_m0.vrs', subst)]
     for f in extra:
         parts.append(em.render(f, subst))
+    parts.insert(1, em.lits.decls())
     text = mark_lemmas(wrap('\n\n'.join(parts)), em.unit)
     return text, em
 
